@@ -18,8 +18,12 @@ def run(tier):
     res.trusted = ["iso8601::datetime accepts every RFC 3339 date-time written with 'T' and 'Z' / numeric offset and rejects strings that do not start with an ISO 8601 date (behaviour of that crate, not decided)",
                    "<[&str]>::contains / str equality are exact byte comparisons"]
     facts = F.load("all")
-    table(res, facts)
+    # the reserved set is decided by interpreting the check over the key partition (R2); the table constant, if there is one, is read as a
+    # second opinion - a check written as a match or with `matches!` has no table and is decided by R2 alone
+    n0 = len(res.violations)
     check_fn(res, facts)
+    r2_ok = len(res.violations) == n0 and len(res.instances.get("C18.R2", [])) >= 8
+    table(res, facts, required=not r2_ok)
     constructors(res, facts)
     time_ctors(res, facts)
     res.floor("C18.R1", 1)
@@ -32,11 +36,15 @@ def run(tier):
     return res
 
 
-def table(res, facts):
+def table(res, facts, required=True):
     b = None
     for bid, bb in facts.bodies.items():
         if re.search(r"custom_claim::CustomClaim::<T>::RESERVED_CLAIMS$", bid):
             b = bb
+    if b is None and not required:
+        res.oblige(True)
+        res.inst("C18.R1", "no table constant: the reserved set is the one the check function was found to refuse (C18.R2, all 8 key classes)")
+        return
     if b is None:
         res.violate("C18.R1", "CustomClaim::RESERVED_CLAIMS", "anchor missing", "constant not found")
         return
